@@ -65,9 +65,11 @@ Definition shift_tcb (dO dP : Z) (t : tcb) : tcb :=
 
 Definition is_synsent (s : state) : bool := match s with SynSent => true | _ => false end.
 
-(* RCV.IRS / RCV.NXT hold raw zeros until a SYN has been processed *)
+(* RCV.IRS / RCV.NXT / SND.WL1 hold raw zeros until a SYN has been processed;
+   from then on they live in the peer's space.  (SND.WL2 is never constrained.) *)
 Definition rcv_valid (dP : Z) (g : ghost) (t : tcb) : Prop :=
-  is_synsent (st t) = false -> g_irs g = wadd (rcv_irs t) dP /\ g_nxt g = wadd (rcv_nxt t) dP.
+  is_synsent (st t) = false ->
+  (g_irs g = wadd (rcv_irs t) dP /\ g_wl1 g = wadd (snd_wl1 t) dP) /\ g_nxt g = wadd (rcv_nxt t) dP.
 (* SND.WL1 / SND.WL2 are valid when they were taken from an ACK-bearing segment *)
 Definition wl_valid (dO dP : Z) (g : ghost) (t : tcb) : Prop :=
   g_wl1 g = wadd (snd_wl1 t) dP /\ g_wl2 g = wadd (snd_wl2 t) dO.
@@ -96,6 +98,7 @@ Record tinv (t : tcb) : Prop := mkTinv {
   i_nxt : u32 (snd_nxt t);
   i_iss : u32 (snd_iss t);
   i_rnxt : u32 (rcv_nxt t);
+  i_wl1 : u32 (snd_wl1 t);
   i_rwnd : rcv_wnd t = DEFAULT_WND;
   i_swnd : if is_synsent (st t) then snd_wnd t = 0 /\ fin_pending t = false
            else snd_wnd t = DEFAULT_WND;
